@@ -157,4 +157,24 @@ def streams(tier, rng, P, only=None, cases=None):
     def pipe_nt(c, impl, m):
         return (c["form"], m[0]) if impl[0] == "ok" and c["k"] > 0 else None
     s2 = Stream("pipeline", s2cases, pipe_model_full, pipe_judge_full, pipe_nt, "length expressions inside sources")
-    return [s for s in (s1, s2) if only in (None, s.name)]
+    # ---- the length argument of the ramp commands written with `=` (Cresc=L,lo,hi …): an omitted head or an empty `^` part is the
+    #      current default length there too — the same ramp as with the default written out
+    def mk_rd():
+        cs = []
+        dl = [("l8", "8"), ("l2", "2"), ("l16", "16"), ("l4.", "4."), ("l%30", "%30"), ("", "4")]
+        for i in range(300 if big else 60):
+            lcmd, dtxt = rng.choice(dl)
+            a_len, b_len = rng.choice([("4^", "4^" + dtxt), ("^", dtxt + "^" + dtxt), ("^16", dtxt + "^16"), ("2^^", "2^%s^%s" % (dtxt, dtxt)), ("8.^", "8.^" + dtxt), ("%24^", "%24^" + dtxt)])
+            cmd = rng.choice(["Cresc", "Decresc", "CRESC"]); lo = rng.randint(0, 127); hi = rng.randint(0, 127)
+            tail = rng.choice(["r1 c", "c d e f", "l1 c"])
+            a = "%s %s=%s,%d,%d %s" % (lcmd, cmd, a_len, lo, hi, tail); b = "%s %s=%s,%d,%d %s" % (lcmd, cmd, b_len, lo, hi, tail)
+            cs.append(dict(req="compile2 %s %s" % (hx(a), hx(b)), src=a, src2=b, show="%s   vs   %s" % (a, b), key="rd%d" % i))
+        return cs
+    def rd_judge(c, impl, m):
+        st, f = impl
+        if st != "ok": return ("violation", "ramp program did not compile normally: " + st)
+        if f["bin1"] != f["bin2"]: return ("violation", "an omitted part of a ramp's length is not the default length: %s vs %s" % (c["src"][:100], c["src2"][:100]))
+        return None
+    s3 = Stream("rampdefault", cases if (cases and only == "rampdefault") else mk_rd(), lambda c, st, f: [], rd_judge, lambda c, i, m: i[1].get("bin1") if i[0] == "ok" else None,
+                "omitted parts in the length argument of Cresc= / Decresc=")
+    return [s for s in (s1, s2, s3) if only in (None, s.name)]
